@@ -58,7 +58,7 @@ func newChecker(strict bool, cache time.Duration) *repoocsp.OCSPRevocationChecke
 
 func main() {
 	run := report.New("C05", "exploration")
-	run.Rule("cells = signer{issuer, delegated+OCSPSigning, delegated without EKU, client's own certificate embedded / not embedded, stranger with/without embedded certificate, sibling CA with/without embedded, delegate of sibling, delegate of root} x serial{this, other} x status{good, revoked, unknown} + error response statuses (bare and wrapped around valid bytes) + every single-bit flip inside tbsResponseData, the signatureAlgorithm OID and the signature of authentic ECDSA responses + truncations; client certificate with/without subjectKeyIdentifier presented with one or two verified chains (all four combinations for every cell of the signer matrix, in rotation elsewhere) and with AKI forms {keyIdentifier, long, issuer+serial, URI+serial with the client carrying the CA's serial}; each response is served to a strict checker (authentic => verdict by status; else error), to a lenient checker (else accepted, whatever the forged body says) and asked again with the responder down and a 1 h cache (cached iff authentic); non-trivial = the responder was contacted and the response reached the parser; distinct = cell / flip position")
+	run.Rule("cells = signer{issuer, delegated+OCSPSigning, delegated without EKU, client's own certificate embedded / not embedded, stranger with/without embedded certificate, sibling CA with/without embedded, delegate of sibling, delegate of root} x serial{this, other = +1, +0xA7*2^64, +2^32} x status{good, revoked, unknown} + error response statuses (bare and wrapped around valid bytes) + every single-bit flip inside tbsResponseData, the signatureAlgorithm OID and the signature of authentic ECDSA responses + truncations; client certificate with/without subjectKeyIdentifier presented with one or two verified chains (all four combinations for every cell of the signer matrix, in rotation elsewhere) and with AKI forms {keyIdentifier, long, issuer+serial, URI+serial with the client carrying the CA's serial}; each response is served to a strict checker (authentic => verdict by status; else error), to a lenient checker (else accepted, whatever the forged body says) and asked again with the responder down and a 1 h cache (cached iff authentic); non-trivial = the responder was contacted and the response reached the parser; distinct = cell / flip position")
 	run.Assume("reference authenticity = built by the harness: which key signed, which certificate is embedded, which serial and status were put in", "bit flips are confined to regions where every bit is signed or is the signature/algorithm OID itself (ECDSA responses carry no algorithm parameters)")
 	scratch, _ := report.Scratch("C05")
 	sut.QuietStderr(filepath.Join(scratch, "stderr.log"))
@@ -243,7 +243,8 @@ func main() {
 
 	// ---- matrix
 	for _, sg := range signers {
-		for _, which := range []string{"this", "other"} {
+		// "other+2^64" / "other+2^32": a sibling certificate whose serial agrees with this one in its low 64 / 32 bits
+		for _, which := range []string{"this", "other", "other+2^64", "other+2^32"} {
 			for sn, st := range statuses {
 				sg, which, st := sg, which, st
 				for round := 0; round < 8; round++ {
@@ -258,8 +259,13 @@ func main() {
 					}
 					v := protocol(func(leaf *pki.CA, serial *big.Int) []byte {
 						s := serial
-						if which == "other" {
+						switch which {
+						case "other":
 							s = new(big.Int).Add(serial, big.NewInt(1))
+						case "other+2^64":
+							s = new(big.Int).Add(serial, new(big.Int).Lsh(big.NewInt(0xA7), 64))
+						case "other+2^32":
+							s = new(big.Int).Add(serial, new(big.Int).Lsh(big.NewInt(1), 32))
 						}
 						return mkResp(sg, leaf, s, st)
 					})
